@@ -1771,7 +1771,7 @@ func newStdioClient() *mcp.StdioClient {
 		panic(err)
 	}
 	c, err := mcp.NewStdioClient(mcp.StdioTransportConfig{
-		ServerParams: mcp.StdioServerParameters{Command: self, Env: map[string]string{"VERIF_RACES_CHILD": "stdio-server", "GORACE": "halt_on_error=0 log_path=" + os.Getenv("VERIF_RACES_SUBLOG")}},
+		ServerParams: mcp.StdioServerParameters{Command: self, Env: map[string]string{"VERIF_RACES_CHILD": "stdio-server", "GORACE": "halt_on_error=0 atexit_sleep_ms=0 log_path=" + os.Getenv("VERIF_RACES_SUBLOG")}},
 		Timeout:      10 * time.Second,
 	}, impl, mcp.WithStdioLogger(hk.QuietLogger{}))
 	if err != nil {
@@ -1854,18 +1854,12 @@ func scCliStdioExit(ch *child) {
 		ch.did(err)
 		return c
 	}
-	t0 := time.Now()
-	mark := func(what string) { fmt.Fprintf(os.Stderr, "MARK %s %v\n", what, time.Since(t0)) }
 	for round := 0; round < 2*ch.scale; round++ {
 		// exits by itself, reaped, then Close (and once more: the second one finds the transport closed)
-		mark("start")
 		c := fresh()
-		mark("fresh")
 		reaped(ch, c, false)
-		mark("reaped")
 		c.Close()
 		c.Close()
-		mark("closed")
 		// … Close from two goroutines at once
 		c = fresh()
 		reaped(ch, c, false)
@@ -1879,15 +1873,12 @@ func scCliStdioExit(ch *child) {
 		c = fresh()
 		reaped(ch, c, false)
 		rctx, cancel := context.WithTimeout(bg, 5*time.Second)
-		mark("before restart")
 		c.RestartProcess(rctx)
 		cancel()
 		c.Close()
-		mark("after restart")
 		// killed from outside while a call is in flight, reaped, Close while the state getters run
 		c = fresh()
 		reaped(ch, c, true)
-		mark("killed reaped")
 		wg.Add(2)
 		go func() { defer wg.Done(); c.Close() }()
 		go func() {
@@ -1914,7 +1905,6 @@ func scCliStdioExit(ch *child) {
 		go func() { defer wg.Done(); time.Sleep(30 * time.Millisecond); c.Close() }()
 		wg.Wait()
 		c.Close()
-		mark("live closed")
 	}
 }
 
